@@ -362,12 +362,17 @@ def build_harness(binname, release=False, features=None):
     cmd = ["cargo", "build", "--offline", "--quiet", "--bin", binname]
     if release:
         cmd.append("--release")
+    target = TARGET
+    env = None
     if features:
+        # a feature variant gets its own target dir so that it never overwrites the default binary
         cmd += ["--features", features]
-    rc, out = sh(cmd, cwd=HARNESS, timeout=3000)
+        target = TARGET + "-" + re.sub(r"[^A-Za-z0-9]+", "_", features)
+        env = dict(ENV, CARGO_TARGET_DIR=target)
+    rc, out = sh(cmd, cwd=HARNESS, timeout=3000, env=env)
     if rc != 0:
         raise Broken("harness-build", out[-4000:])
-    return os.path.join(TARGET, "release" if release else "debug", binname)
+    return os.path.join(target, "release" if release else "debug", binname)
 
 
 # --------------------------------------------------------------------------
